@@ -171,7 +171,7 @@ def model(op):
         region = None
         if e_p:
             errs.add(e_p)
-            # listed deviation: position outside 1..255 is not checked when length 0 is given
+            # own bucket key: position outside 1..255 was not checked when length 0 is given
             if e_p == IFC and given0:
                 region = 'midset.position-unchecked-len0'
         elif p > len(s) and not given0:
@@ -445,16 +445,12 @@ def check_op(sess, op, res, strict):
         res.fail('escaped.' + obs[1], '%r -> %r' % (text, obs))
         return nt
     where = '%s[%s]' % (f, op.get('route', 'direct'))
-    # listed deviation regions
+    # regions of the two (meanwhile fixed) findings keep their own bucket keys
     if 'region' in exp:
         tol = exp['tolerated']
         if obs[0] == tol[0] and obs[1] == tol[1]:
-            if strict:
-                res.fail(exp['region'], '%r: expected error %r, observed %r' % (
-                    text, sorted(exp['codes']), obs))
-            else:
-                res.excluded += 1
-                res.label('excluded:' + exp['region'])
+            res.fail(exp['region'], '%r: expected error %r, observed %r' % (
+                text, sorted(exp['codes']), obs))
             return nt
     if exp['kind'] == 'err':
         if obs[0] != 'err':
@@ -664,7 +660,7 @@ def strat_case(draw):
 def gen_bulk(shard, nshards, tier, seed):
     import random
     ch = RandomChooser(random.Random(seed))
-    n = 1500 if tier == 'quick' else 120000
+    n = 1500 if tier == 'quick' else 100000
     for _ in range(n):
         yield {'ops': [gen_op(ch) for _ in range(4)]}
 
@@ -721,17 +717,17 @@ def gen_grid(shard, nshards, tier, seed):
 
 def units(tier):
     return [
-        Unit('grid', 'enum', shards=16, gen=gen_grid, exhaustive=True),
-        Unit('random-bulk', 'enum', shards=16, gen=gen_bulk),
+        Unit('grid', 'enum', shards=16, gen=gen_grid, exhaustive=True, per_case_timeout=120.0),
+        Unit('random-bulk', 'enum', shards=16, gen=gen_bulk, per_case_timeout=120.0),
         Unit('random', 'hyp', shards=16, examples={'quick': 150, 'thorough': 6000},
              strategy=strat_case),
     ]
 
 
 REGRESSIONS = [
-    # open: STRING$(n, "") returns "" instead of Illegal function call
+    # fixed 6560a3b0: STRING$(n, "") returned "" instead of Illegal function call
     {'strict': True, 'ops': [{'f': 'STRINGS', 's': '', 'a': 3, 't': ''}]},
-    # open: MID$(V$, 0, 0)= is accepted (position outside 1..255 unchecked when length is 0)
+    # fixed 58a8a5a4: MID$(V$, 0, 0)= was accepted (position unchecked when length is 0)
     {'strict': True, 'ops': [{'f': 'MIDSET3', 's': 'abc', 'a': 0, 'b': 0, 't': 'x'}]},
     # self-overlapping MID$ copies left to right
     {'ops': [{'f': 'MIDSET2', 's': 'abcdef', 'a': 3, 'self': True}]},
@@ -740,4 +736,15 @@ REGRESSIONS = [
              {'f': 'CMP', 's': 'a\x7f', 't': 'a\x80', 'op': '<'}]},
 ]
 
-KILLS = []
+KILLS = [
+    "values.py right_: s.to_str()[-stop:] -> [len-stop-1:]  => RIGHT.value (shrunk to RIGHT$(S$,1) on 'ab')",
+    'values.py mid_: start > length -> >=  => MID2.value, MID3.value (grid)',
+    'values.py mid_: range_check(1,255,start) -> (0,255)  => MID2.error-missing, MID3.error-missing',
+    "strings.py midset: 'if source != target' -> 'if True' (no byte-wise loop)  => MIDSET2.value, MIDSET3.value (self-overlap)",
+    'strings.py gt: len(left) > len(right) -> >=  => CMP.value',
+    'strings.py lset: in_str[:length].rjust -> in_str[-length:].rjust  => RSET.value (+ escaped.ValueError@strings.py:lset)',
+    'values.py instr_: start > len(big) -> >=  => INSTR2.value, INSTR3.value',
+    'strings.py midset: drop num = min(num, val.length())  => escaped.ValueError@strings.py:midset',
+    'strings.py check_modify: never copy code literals  => LSET.value, RSET.value, MIDSET2.value, MIDSET3.value (prog route)',
+    'strings.py store: length > 255 -> >= 255  => CAT.spurious-error, SPACE.spurious-error, STRINGN.spurious-error',
+]
